@@ -156,9 +156,7 @@ Definition ex_r_read : sam :=
 
 Example C03_example_in_domain : sam_ok ex_o ex_r.
 Proof.
-  constructor; try (vm_compute; repeat constructor; discriminate).
-  - vm_compute. repeat constructor; try discriminate.
-  - vm_compute. repeat constructor; intuition discriminate.
+  sam_ok_example.
 Qed.
 
 Example C03_example :
